@@ -6,6 +6,7 @@ import (
 	"fmt"
 	"math/rand/v2"
 	"os"
+	"path/filepath"
 	"strings"
 	"sync"
 	"testing"
@@ -24,6 +25,7 @@ var c06Classes = []string{
 	"split-without-rollout",
 	"conflict-race",
 	"overlap-same-name-unhealthy", "overlap-same-name-conflict",
+	"state-unwritable-deploy", "state-unwritable-rollout",
 }
 
 type c06Scenario struct {
@@ -215,6 +217,18 @@ func c06Run(t *testing.T, run *Run, sc c06Scenario, rng *rand.Rand) {
 	case "overlap-same-name-unhealthy", "overlap-same-name-conflict":
 		c06SameName(w, run, sc, existing)
 		return
+	case "state-unwritable-deploy", "state-unwritable-rollout":
+		// not an error of the list, and on this tree not an error at all (a snapshot that cannot be
+		// written is logged): a healthy redeploy while the snapshot's temporary path is unusable. Should
+		// the command report an error all the same, what the statement says of every reported error
+		// applies to it.
+		mustFail = false
+		if sc.Class == "state-unwritable-rollout" {
+			f = Cmd{Kind: "rollout-deploy", Svc: victim, Targets: g.targets(victim, "r"), DeployTO: 2 * time.Second, DrainTO: time.Second}
+		}
+		os.MkdirAll(filepath.Join(w.StatePath+".tmp", "in-the-way"), 0o755)
+		defer os.RemoveAll(w.StatePath + ".tmp")
+		rejected = f.Targets
 	case "split-without-rollout":
 		mustFail = false
 		for _, name := range existing {
